@@ -48,13 +48,35 @@ type stmt struct {
 	e    *expr
 	body []stmt
 	n    int
+	nat  string // for 'S': the native function that performs the send (h.Send, h.SendMul, h.SendSum)
+	e2   *expr  // second operand of SendMul / SendSum
+}
+
+// value sent by a (possibly native) send statement, as the model sees it
+func (s stmt) sent() *expr {
+	switch s.nat {
+	case "SendMul":
+		return mul(s.e, s.e2)
+	case "SendSum":
+		return add(s.e, s.e2)
+	}
+	return s.e
+}
+
+// wrapper describes a function of the model that stands for a native function started with go:
+// `go f(a, b)` is rendered `go h.<name>(ch, a, b)`.
+type wrapper struct {
+	name string
+	ch   int
 }
 
 func toks(ss []stmt) string {
 	parts := []string{fmt.Sprint(len(ss))}
 	for _, s := range ss {
 		switch s.op {
-		case 'A', 'T', 'S':
+		case 'S':
+			parts = append(parts, "S", fmt.Sprint(s.x), s.sent().toks())
+		case 'A', 'T':
 			parts = append(parts, string(s.op), fmt.Sprint(s.x), s.e.toks())
 		case 'L', 'R':
 			parts = append(parts, string(s.op), fmt.Sprint(s.x), fmt.Sprint(s.y))
@@ -80,7 +102,9 @@ type program struct {
 	caps     []int
 	cells    int
 	shapes   []string
-	segs     [][]stmt // the statements of main, one segment per shape
+	wrappers map[int]wrapper // function index → native function it stands for
+	deferred map[int][]stmt  // function index → native sends deferred at its start (run in this order at its end)
+	segs     [][]stmt        // the statements of main, one segment per shape
 	modelled bool
 }
 
@@ -94,13 +118,14 @@ func (p *program) protoLine(level string, fp0, fuel int, seed uint64) string {
 		caps = strings.Join(cs, ",")
 	}
 	parts := []string{fmt.Sprint(len(p.funcs))}
-	for _, f := range p.funcs {
-		parts = append(parts, toks(f))
+	for k, f := range p.funcs {
+		parts = append(parts, toks(append(append([]stmt(nil), f...), p.deferred[k]...)))
 	}
 	return fmt.Sprintf("C14 run %s %d %d %d %s %d %d %d %s", level, p.N, p.M, fp0, caps, p.cells, fuel, seed%1000000007, strings.Join(parts, ":"))
 }
 
 type srcWriter struct {
+	p     *program
 	b     strings.Builder
 	sfx   string
 	depth int
@@ -120,7 +145,14 @@ func (w *srcWriter) stmts(ss []stmt) {
 		case 'T':
 			fmt.Fprintf(&w.b, "%scell%d%s = %s\n", w.ind(), s.x, w.sfx, s.e.src())
 		case 'S':
-			fmt.Fprintf(&w.b, "%sch%d%s <- %s\n", w.ind(), s.x, w.sfx, s.e.src())
+			switch s.nat {
+			case "":
+				fmt.Fprintf(&w.b, "%sch%d%s <- %s\n", w.ind(), s.x, w.sfx, s.e.src())
+			case "Send":
+				fmt.Fprintf(&w.b, "%sh.Send(ch%d%s, %s)\n", w.ind(), s.x, w.sfx, s.e.src())
+			default:
+				fmt.Fprintf(&w.b, "%sh.%s(ch%d%s, %s, %s)\n", w.ind(), s.nat, s.x, w.sfx, s.e.src(), s.e2.src())
+			}
 		case 'R':
 			fmt.Fprintf(&w.b, "%sr%d = <-ch%d%s\n", w.ind(), s.x, s.y, w.sfx)
 		case 'C':
@@ -133,7 +165,11 @@ func (w *srcWriter) stmts(ss []stmt) {
 			for ; ss[i].op == 'G'; i++ {
 				args = append(args, ss[i].e.src())
 			}
-			fmt.Fprintf(&w.b, "%sgo f%d%s(%s)\n", w.ind(), ss[i].x, w.sfx, strings.Join(args, ", "))
+			if wr, ok := w.p.wrappers[ss[i].x]; ok {
+				fmt.Fprintf(&w.b, "%sgo h.%s(ch%d%s, %s)\n", w.ind(), wr.name, wr.ch, w.sfx, strings.Join(args, ", "))
+			} else {
+				fmt.Fprintf(&w.b, "%sgo f%d%s(%s)\n", w.ind(), ss[i].x, w.sfx, strings.Join(args, ", "))
+			}
 		case 'O':
 			fmt.Fprintf(&w.b, "%sgo f%d%s()\n", w.ind(), s.x, w.sfx)
 		case 'Y':
@@ -164,7 +200,7 @@ func (w *srcWriter) stmts(ss []stmt) {
 // source renders the program; sfx is appended to every package-level name (gc batch), mainName
 // is the name of function 0.
 func (p *program) source(sfx, mainName string, standalone bool) string {
-	w := &srcWriter{sfx: sfx}
+	w := &srcWriter{sfx: sfx, p: p}
 	if standalone {
 		w.b.WriteString("package main\n\nimport \"h\"\n\n")
 	}
@@ -179,6 +215,9 @@ func (p *program) source(sfx, mainName string, standalone bool) string {
 		fmt.Fprintf(&w.b, "var cell%d%s int\n", i, sfx)
 	}
 	for k, f := range p.funcs {
+		if _, ok := p.wrappers[k]; ok {
+			continue // stands for a native function
+		}
 		var params, locals, all []string
 		for i := 0; i < p.N; i++ {
 			all = append(all, fmt.Sprintf("r%d", i))
@@ -203,6 +242,15 @@ func (p *program) source(sfx, mainName string, standalone bool) string {
 		blanks := strings.TrimSuffix(strings.Repeat("_, ", len(all)), ", ")
 		fmt.Fprintf(&w.b, "\t%s = %s\n", blanks, strings.Join(all, ", "))
 		w.depth = 1
+		if d := p.deferred[k]; len(d) > 0 { // deferred calls run last-in first-out
+			for i := len(d) - 1; i >= 0; i-- {
+				w.b.WriteString("\tdefer ")
+				var one srcWriter
+				one.p, one.sfx = p, sfx
+				one.stmts([]stmt{d[i]})
+				w.b.WriteString(one.b.String())
+			}
+		}
 		w.stmts(f)
 		w.b.WriteString("}\n")
 	}
@@ -242,6 +290,97 @@ func (g *gen) yields(ss []stmt) []stmt {
 		out = append(out, s)
 	}
 	return out
+}
+
+func (g *gen) newChanCap(c int) int {
+	g.p.caps = append(g.p.caps, c)
+	return len(g.p.caps) - 1
+}
+
+// newWrapper adds a model function standing for the native function `name` sending on ch.
+func (g *gen) newWrapper(name string, ch int) int {
+	var body []stmt
+	n := 2
+	switch name {
+	case "Send":
+		body, n = []stmt{{op: 'S', x: ch, e: loc(0)}}, 1
+	case "SendMul":
+		body = []stmt{{op: 'S', x: ch, e: mul(loc(0), loc(1))}}
+	case "SendSum":
+		body = []stmt{{op: 'S', x: ch, e: add(loc(0), loc(1))}}
+	}
+	g.p.funcs = append(g.p.funcs, body)
+	g.p.nparams = append(g.p.nparams, n)
+	k := len(g.p.funcs) - 1
+	g.p.wrappers[k] = wrapper{name, ch}
+	return k
+}
+
+// nativeFanIn: native functions of several signatures started with go in a loop (the same
+// function again and again, its arguments changing), results summed.
+func (g *gen) nativeFanIn() []stmt {
+	k := 2 + g.r.Intn(19)
+	res := g.newChan()
+	w1, w2, w3 := g.newWrapper("Send", res), g.newWrapper("SendMul", res), g.newWrapper("SendSum", res)
+	body := goCall(w1, add(mul(loc(0), lit(7)), loc(1)))
+	per := 1
+	if g.r.Intn(2) == 0 {
+		body = append(body, goCall(w2, loc(0), loc(1))...)
+		per++
+	}
+	if g.r.Intn(2) == 0 {
+		body = append(body, goCall(w3, loc(1), lit(g.r.Intn(40)))...)
+		per++
+	}
+	if g.r.Intn(3) == 0 {
+		body = append(body, goCall(w1, loc(1))...) // the same function again right after
+		per++
+	}
+	body = append(body, stmt{op: 'A', x: 0, e: add(loc(0), lit(1))}, stmt{op: 'A', x: 1, e: add(loc(1), lit(3))})
+	return []stmt{
+		{op: 'A', x: 0, e: lit(1 + g.r.Intn(5))},
+		{op: 'A', x: 1, e: lit(g.r.Intn(9))},
+		{op: 'N', n: k, body: body},
+		{op: 'A', x: 2, e: lit(0)},
+		{op: 'N', n: k * per, body: []stmt{{op: 'R', x: 3, y: res}, {op: 'A', x: 2, e: add(loc(2), loc(3))}}},
+		{op: 'P', e: loc(2)},
+	}
+}
+
+// nativeSyncAfterGo: a native function started with go and called synchronously right after.
+func (g *gen) nativeSyncAfterGo() []stmt {
+	b := g.newChanCap(4 + g.r.Intn(3))
+	w1, w2 := g.newWrapper("Send", b), g.newWrapper("SendMul", b)
+	K := 10 + g.r.Intn(90)
+	ss := []stmt{{op: 'A', x: 0, e: lit(1 + g.r.Intn(9))}, {op: 'A', x: 1, e: lit(2 + g.r.Intn(9))}}
+	ss = append(ss, goCall(w1, loc(0))...)
+	ss = append(ss, stmt{op: 'S', x: b, nat: "Send", e: lit(K)})
+	ss = append(ss, goCall(w2, loc(0), loc(1))...)
+	ss = append(ss, stmt{op: 'S', x: b, nat: "SendMul", e: lit(3), e2: lit(K)},
+		stmt{op: 'A', x: 2, e: lit(0)},
+		stmt{op: 'N', n: 4, body: []stmt{{op: 'R', x: 3, y: b}, {op: 'A', x: 2, e: add(loc(2), loc(3))}}},
+		stmt{op: 'P', e: loc(2)})
+	return ss
+}
+
+// deferNative: goroutines whose native sends are deferred.
+func (g *gen) deferNative() []stmt {
+	k := 1 + g.r.Intn(4)
+	res := g.newChan()
+	w := g.newFunc(1, []stmt{{op: 'A', x: 1, e: add(loc(0), lit(1))}, {op: 'S', x: res, e: loc(1)}})
+	g.p.deferred[w] = []stmt{
+		{op: 'S', x: res, nat: "Send", e: mul(loc(0), lit(3))},
+		{op: 'S', x: res, nat: "SendMul", e: loc(0), e2: lit(5)},
+		{op: 'S', x: res, nat: "SendSum", e: loc(0), e2: lit(g.r.Intn(30))},
+	}
+	ss := []stmt{{op: 'A', x: 0, e: lit(g.r.Intn(20))}}
+	for i := 0; i < k; i++ {
+		ss = append(ss, goCall(w, loc(0))...)
+		ss = append(ss, stmt{op: 'A', x: 0, e: add(loc(0), lit(2))})
+	}
+	return append(ss, stmt{op: 'A', x: 2, e: lit(0)},
+		stmt{op: 'N', n: 4 * k, body: []stmt{{op: 'R', x: 3, y: res}, {op: 'A', x: 2, e: add(loc(2), loc(3))}}},
+		stmt{op: 'P', e: loc(2)})
 }
 
 func goCall(f int, args ...*expr) []stmt {
@@ -349,11 +488,20 @@ func (g *gen) selectSum() []stmt {
 }
 
 func genProgram(r *proto.Rand) *program {
-	p := &program{N: 4, M: 2, funcs: [][]stmt{nil}, nparams: []int{0}, modelled: true}
+	p := &program{N: 4, M: 2, funcs: [][]stmt{nil}, nparams: []int{0}, modelled: true, wrappers: map[int]wrapper{}, deferred: map[int][]stmt{}}
 	g := &gen{r: r, p: p}
 	for n := 1 + r.Intn(3); n > 0; n-- {
 		var seg []stmt
-		switch x := r.Intn(10); {
+		switch x := r.Intn(16); {
+		case x >= 13:
+			seg = g.deferNative()
+			p.shapes = append(p.shapes, "defer-native")
+		case x >= 12:
+			seg = g.nativeSyncAfterGo()
+			p.shapes = append(p.shapes, "native-go-then-sync")
+		case x >= 10:
+			seg = g.nativeFanIn()
+			p.shapes = append(p.shapes, "native-fan-in")
 		case x < 3:
 			seg = g.pipeline()
 			p.shapes = append(p.shapes, "pipeline")
